@@ -7,6 +7,15 @@ EXTRA = [
 m=mesh("triangle"); V=space(m,"P",1); u,v=TrialFunction(V),TestFunction(V); f=Coefficient(V); g=Coefficient(V)
 F=(f*f*g+g)*v*dx
 objs=[derivative(F,f,u)]'''),
+    corpus._c("c05_constant_vanishes_in_derivative", '''
+m=mesh("triangle"); V=space(m,"P",1); u=Coefficient(V); du,v=TrialFunction(V),TestFunction(V)
+b=Constant(m); K=Constant(m,shape=(2,2)); s=Constant(m)
+F=inner(K*grad(u),grad(v))*dx - b*v*dx + s*u*u*v*ds
+objs=[derivative(F,u,du)]'''),
+    corpus._c("c05_constants_per_integral", '''
+m=mesh("tetrahedron"); V=space(m,"P",1); v=TestFunction(V)
+a=Constant(m,shape=(3,)); b=Constant(m); c=Constant(m,shape=(2,2)); d=Constant(m)
+objs=[b*v*dx(1) + d*v*dx(2) + a[2]*v*ds + c[1,0]*v*dx(3)]'''),
     corpus._c("c05_cancellation", '''
 m=mesh("triangle"); V=space(m,"P",1); v=TestFunction(V); f=Coefficient(V); g=Coefficient(V); h=Coefficient(V)
 objs=[(f+g-f)*v*dx + h*v*ds]'''),
